@@ -325,6 +325,50 @@ def run(chk):
     # facts about plain names (C20_plain_name_is_an_entry_of_its_directory) the upload model is built on
     import pathgen
     pathgen.stream(chk, ["pjoin", "pbase", "pdir"])
+    # ---- retries: the first operation fails half-way, the cause is repaired, the operation is tried again through the same
+    # handle into the SAME destination: it succeeds, every file in the destination is byte-identical to its original and (for
+    # a copy) the originals are intact
+    rsc = []
+    for kind, ctl in (("dsc", b"x_1.0-1.dsc"), ("changes", b"x_1.0-1_amd64.changes")):
+        for op in ("copy~copy", "copy~move"):     # (a failed move has already moved the earlier files: a retry is not promised)
+            for n in (2, 3):
+                for pos in range(n):
+                    for st in ("missing", "blocked"):
+                        fl = [(names[k], "ok", b"content %d " % k * (k + 2)) for k in range(n)]
+                        fl[pos] = (fl[pos][0], st, fl[pos][2])
+                        rsc.append((kind, op, ctl, fl))
+    rcases = []
+    for kind, op, ctl, files in rsc:
+        args = [kind.encode(), op.encode(), ctl, b"ok", len(files)]
+        for n_, st, c_ in files:
+            args += [n_, st.encode(), c_]
+        rcases.append(("upload", args))
+    rimpl = chk.run_impl(rcases)
+    chk.record("retry-after-a-failure", rcases, rimpl, lambda c, r: r.startswith("err~ok"))
+    for (kind, op, ctl, files), c, i in zip(rsc, rcases, rimpl):
+        it = i.split(" ", 2)
+        why = None
+        if len(it) < 3 or it[0] != "err~ok":
+            why = "the first attempt did not fail or the retry after repairing the cause did not succeed (%s)" % it[0]
+        else:
+            body = it[2].rsplit(" ", 1)[0]
+            k = body.index("] [") + 1 if "] [" in body else (body.index("] ") + 1)
+            ents = {}
+            for e in body[:k].split("( ")[1:]:
+                a, b = e.split()[:2]
+                ents[bytes.fromhex(a[1:])] = bytes.fromhex(b[1:])
+            o2 = op.split("~")[1]
+            for n_, st, cnt in files:
+                if ents.get(b"D/" + n_) != cnt:
+                    why = "after the retry the file %s in the destination is not byte-identical to the original" % n_.decode()
+                if o2 == "copy" and ents.get(b"S/" + n_) != cnt:
+                    why = "after the retried copy the original %s is no longer intact" % n_.decode()
+            if b"D/" + ctl not in ents:
+                why = why or "after the retry the control file is not in the destination"
+            if ents.get(b"outside/canary") != b"canary" or ents.get(b"root/rootcanary") != b"canary":
+                why = "a file outside the directories involved was touched"
+        if why:
+            chk.violate({"kind": "property", "case": lib.show_case(c), "impl": i[:1500], "explanation": why})
     chk.extra["history_scenarios"] = len(hist)
     chk.extra["scenarios"] = len(scs)
     chk.trusted.append("the OS file system (ext4/overlay under /var/tmp) and inotify as the observer of the order of appearance")
